@@ -62,6 +62,20 @@ func (f zzFailList) ReadDir(p string) ([]os.FileInfo, error) {
 // reported; under every schedule with at most P preemptions.
 func ZZVerifC08Loop() { zzLoop(nd.Param("P", 1), nd.Param("SHAPES", 3), nd.Param("C", 1), nd.Param("PR", 1)) }
 
+// ZZVerifC08Bound: the consumer bound. Callbacks are long-running (any other
+// goroutine may run while one is inside, without spending a preemption), the
+// tree has at least two entries, nothing fails and nothing is filtered: with
+// every combination of 1..BC consumers and 1..BPR producers the number of
+// callbacks running at once never exceeds the configured consumer count (and
+// every entry is still visited exactly once, Wait returns last).
+func ZZVerifC08Bound() {
+	zzPlain = true
+	zzLoop(nd.Param("BP", 0), 3, nd.Param("BC", 2), nd.Param("BPR", 2))
+}
+
+// zzPlain: long-running callbacks, no failures, no filters, shapes 1-2 only.
+var zzPlain bool
+
 // ZZVerifC08LoopWide: the same with more producers/consumers and all tree
 // shapes under a smaller preemption bound.
 func ZZVerifC08LoopWide() {
@@ -74,6 +88,9 @@ func zzLoop(pBound, nShapes, maxC, maxPR int) {
 	fs, _ := memfs.NewFilespace()
 	// tree shape: 0: f        1: f, d/g      2: d/g, d/h      3: empty     4: d/ (empty dir), f
 	shape := nd.Choose("shape", nShapes)
+	if zzPlain {
+		nd.Assume(shape == 1 || shape == 2)
+	}
 	var files, dirs []string
 	w := func(p string) {
 		nd.Assume(fs.WriteFile(p, []byte("x"), filesystem.DefaultUnixFileMode) == nil)
@@ -98,12 +115,12 @@ func zzLoop(pBound, nShapes, maxC, maxPR int) {
 	}
 	consumers := 1 + nd.Choose("consumers", maxC)
 	producers := 1 + nd.Choose("producers", maxPR)
-	rejectDir := nd.Choose("reject-dir", 2) == 1 && len(dirs) > 0
-	failFile := nd.Bool("fail-file")
-	failDir := len(dirs) > 0 && !rejectDir && nd.Bool("fail-dir")
+	rejectDir := !zzPlain && nd.Choose("reject-dir", 2) == 1 && len(dirs) > 0
+	failFile := !zzPlain && nd.Bool("fail-file")
+	failDir := !zzPlain && len(dirs) > 0 && !rejectDir && nd.Bool("fail-dir")
 	cbFailed := false // some callback returned an error
 	// a listing error in the sub-directory (if there is one and it is entered)
-	failList := len(dirs) > 0 && !rejectDir && nd.Bool("fail-listing")
+	failList := !zzPlain && len(dirs) > 0 && !rejectDir && nd.Bool("fail-listing")
 	var walked filesystem.Filespace = fs
 	if failList {
 		walked = zzFailList{zzInner: fs, bad: "./d"}
@@ -114,7 +131,11 @@ func zzLoop(pBound, nShapes, maxC, maxPR int) {
 		Filespace: walked,
 		OnFile: func(_ filesystem.Filespace, p string) error {
 			v.begin(p)
-			nd.Yield()
+			if zzPlain {
+				nd.Pause() // a callback takes time: others may run meanwhile
+			} else {
+				nd.Yield()
+			}
 			v.end()
 			if failFile {
 				v.mu.Lock()
@@ -126,7 +147,11 @@ func zzLoop(pBound, nShapes, maxC, maxPR int) {
 		},
 		OnDir: func(_ filesystem.Filespace, p string) error {
 			v.begin(p)
-			nd.Yield()
+			if zzPlain {
+				nd.Pause() // a callback takes time: others may run meanwhile
+			} else {
+				nd.Yield()
+			}
 			v.end()
 			if failDir {
 				v.mu.Lock()
@@ -188,5 +213,8 @@ func zzLoop(pBound, nShapes, maxC, maxPR int) {
 	nd.Assert(v.maxRun <= consumers, "C08/more-callbacks-than-consumers")
 	nd.Quiesce()
 	nd.Assert(!v.late && v.running == 0, "C08/callback-after-wait")
+	if zzPlain && consumers >= 2 && v.maxRun >= 2 {
+		nd.Reach("C08/bound-two-callbacks-overlapped")
+	}
 	nd.Reach("C08/loop-end")
 }
